@@ -126,7 +126,7 @@ def generating_set_as_weights(prog: Program, rep, RID: str, cname: str) -> int:
     a coefficient of that size and the exception escapes from solve()."""
     f = prog.own_method(cname, "_solve_with_given_weights")
     sites = [c for c in calls_in(f.node) if isinstance(c.func, ast.Attribute) and c.func.attr in ("update", "extend", "union") and c.args and
-             "_generating_set" in norm(c.args[0])]
+             ("_generating_set" in norm(c.args[0]) or "_all_subgraph_weights" in norm(c.args[0]))]
     if not sites:
         raise AnalysisError(f"{cname}._solve_with_given_weights: the generating set is not added to the given weights")
     n = 0
@@ -137,6 +137,10 @@ def generating_set_as_weights(prog: Program, rep, RID: str, cname: str) -> int:
         filt = [norm(cond) for comp in ast.walk(a) if isinstance(comp, (ast.GeneratorExp, ast.ListComp, ast.SetComp)) for g in comp.generators for cond in g.ifs]
         if any(re_.search(r"> ?(1e-\d+|\d*\.\d+|self\.\w*tol\w*)", t) for re_ in [__import__("re")] for t in filt):
             rep.ok(RID, key, f"elements that are zero up to the tolerance are not used as weights: `{filt[0]}`", f.loc(c))
+        elif dotted(a) == "self._all_subgraph_weights":
+            rep.violation(RID, f"{cname}._solve_with_given_weights:subgraph-weights-noise", "the weights of the subgraph-scanning window decompositions are added to the given "
+                          "weights as they are: a greedy float decomposition leaves a path of weight 2.78e-17, HiGHS rejects the coefficient and 'Error adding constraint "
+                          "to the model' escapes from solve() (use_subgraph_scanning_lowerbound with optimize_with_guessed_weights, float flows)", f.loc(c))
         elif dotted(a) == "self._generating_set":
             rep.violation(RID, key, "the float generating set is added to the given weights as the solver reported it: an unused element such as -2.02e-14 becomes a "
                           "matrix coefficient, HiGHS rejects it and 'Error adding constraint to the model' escapes from solve() (use_min_gen_set_lowerbound with "
